@@ -1,10 +1,369 @@
 /-
-  MdModel.Det — placeholder (model not written yet).
+  MdModel.Det — the order- and schedule-sensitive spots of report production (property C13), each as a
+  small executable model in which a hash map / hash set is an association LIST whose order is
+  arbitrary (the theorems in `MdProofs.C13` quantify over every permutation of it) and a completion
+  order is an arbitrary list of indices.
+
+    * `renderLimits`        `ProcessState::print_json`, `"proc_limits"` (minidump-processor/src/
+                            process_state.rs:976-990): collect the `HashMap<String, LinuxProcLimit>`
+                            entries, `sort_by` name, render in that order. (`renderLimitsUnsorted` is
+                            the renderer before fix 55811f9: render in iteration order.)
+    * `walkRest`            `walk_with_stack_cfi` (breakpad-symbols/src/sym_file/walker.rs:528-560):
+                            the remaining `REG: EXPR` rules of the `HashMap<CfiReg, &str>`, sorted
+                            by register name, each evaluated (the value only depends on the CALLEE's
+                            registers, memory and the CFA — never on the caller state being built)
+                            and applied with `set_caller_register` / `clear_caller_register` of
+                            `CfiStackWalker` (minidump-unwind/src/lib.rs:624-637), which first
+                            canonicalises the label (`memoize_register`: `x29`→`fp`, `x30`→`lr`),
+                            so two labels may hit one register. (`walkRestUnsorted`: before fix
+                            c84fd4e.)
+    * `joinByIndex`         `process_minidump_with_options` (processor.rs:1143-1225): one future per
+                            thread, each writing ITS OWN `state.threads[i]` (`iter_mut().enumerate()`),
+                            driven by `join_all`; the order in which the walks finish is arbitrary.
+                            (`joinByCompletion`: a collector that appends results as they finish.)
+    * `textRegs`/`jsonRegs` `print_registers` (minidump-unwind/src/lib.rs:385-413) and
+                            `json_registers` (process_state.rs:512-530): walk the fixed
+                            `general_purpose_registers()` list and TEST membership in the validity
+                            `HashSet`; the JSON object is a `serde_json::Map` = `BTreeMap` (no
+                            `preserve_order` feature in this build), i.e. sorted by key.
+                            (`regsBySet`: a renderer that iterates the set instead.)
+    * `statsAfter`/`statsReport`  `Symbolizer::get_symbols` (breakpad-symbols/src/lib.rs:874-897)
+                            inserts, when a supplier call COMPLETES, `stats[leafname(code_file)] :=
+                            outcome`; `print_json` (process_state.rs:1017-1064) looks every module up
+                            by `basename(code_file)`. The insertion order is the completion order of
+                            the supplier calls (one per distinct module key — C12 `at_most_once`).
+
+    * `certMap`/`certReport`  `handle_evil` (minidump-processor/src/evil.rs:57-67): the evil JSON's
+                            `ModuleSignatureInfo` (`HashMap<cert, Vec<module>>`) is collected,
+                            sorted by certificate name (fix 2943e9c) and inverted by
+                            `for (cert, modules) in certs { for m in modules { map.insert(m, cert) } }`;
+                            `cert_subject` / the text module list look every module up by file name.
+                            (`certMapUnsorted`: the loop over the map's iteration order.)
+
+  Names are byte strings (`List Nat`), compared like Rust's `str::cmp` (`lexLe`).
+  `slice::sort_by` is modelled by insertion sort (`isort`): for pairwise distinct keys under a total
+  order every correct sort returns the same list (`MdProofs.C13.sort_unique`).
 -/
 import MdModel.Prelude
 namespace MdModel.Det
+open MdModel
+
+/-! ### order and sorting -/
+
+/-- `<[u8] as Ord>::cmp(a, b) != Greater` — byte-wise lexicographic, a proper prefix is smaller -/
+def lexLe : List Nat → List Nat → Bool
+  | [], _ => true
+  | _ :: _, [] => false
+  | a :: as, b :: bs => if a < b then true else if b < a then false else lexLe as bs
+
+def insertBy {α : Type} (le : α → α → Bool) (x : α) : List α → List α
+  | [] => [x]
+  | y :: ys => if le x y then x :: y :: ys else y :: insertBy le x ys
+
+/-- insertion sort (stable) -/
+def isort {α : Type} (le : α → α → Bool) : List α → List α
+  | [] => []
+  | x :: xs => insertBy le x (isort le xs)
+
+/-- the order the code sorts map entries by: the key only -/
+def keyLe {β : Type} (a b : List Nat × β) : Bool := lexLe a.1 b.1
+
+/-! ### 1. `/proc/<pid>/limits` section -/
+
+/-- one entry of `LinuxProcLimits.limits`: name and the rest (`soft`, `hard`, `unit`), of any type;
+    `json : entry → γ` is what one array element of `"limits"` shows (`json!({"name":…,…})`) -/
+abbrev LimitEntry (β : Type) := List Nat × β
+
+/-- current code: `sorted = limits.iter().collect(); sorted.sort_by(name); sorted.map(json!)`;
+    the argument is the map in ITERATION order -/
+def renderLimits {β γ : Type} (json : LimitEntry β → γ) (iter : List (LimitEntry β)) : List γ :=
+  (isort keyLe iter).map json
+
+/-- before 55811f9: `limits.iter().map(json!)` -/
+def renderLimitsUnsorted {β γ : Type} (json : LimitEntry β → γ) (iter : List (LimitEntry β)) : List γ :=
+  iter.map json
+
+/-- the protocol's rendering of one entry -/
+def renderEntry (e : LimitEntry String) : String := s!"{Proto.hex (e.1.map UInt8.ofNat)}/{e.2}"
+
+/-! ### 2. the remaining-register loop of `walk_with_stack_cfi` -/
+
+/-- a `REG: EXPR` rule after evaluation: `val = none` iff `eval_cfi_expr` failed -/
+abbrev Rule := List Nat × Option Nat
+
+/-- caller register file under construction: value in `caller_ctx`, membership in `caller_validity` -/
+structure Cell where
+  val : Nat
+  valid : Bool
+  deriving DecidableEq, Repr, Inhabited
+
+/-- the `FrameWalker` as far as the loop uses it -/
+structure Walker where
+  /-- `memoize_register`: canonical register of a label, `none` for an unknown name -/
+  canon : List Nat → Option Nat
+  /-- `C::Register::try_from(val).is_ok()` -/
+  fits : Nat → Bool
+
+abbrev Regs := Nat → Cell
+
+def upd (f : Regs) (i : Nat) (c : Cell) : Regs := fun j => if j = i then c else f j
+
+/-- `CfiStackWalker::set_caller_register` -/
+def setReg (W : Walker) (s : Regs) (label : List Nat) (v : Nat) : Regs :=
+  match W.canon label with
+  | none => s
+  | some r => if W.fits v then upd s r ⟨v, true⟩ else s
+
+/-- `CfiStackWalker::clear_caller_register` (after fix 88e196e: the canonical name is removed) -/
+def clearReg (W : Walker) (s : Regs) (label : List Nat) : Regs :=
+  match W.canon label with
+  | none => s
+  | some r => upd s r ⟨(s r).val, false⟩
+
+def applyRule (W : Walker) (s : Regs) (r : Rule) : Regs :=
+  match r.2 with
+  | some v => setReg W s r.1 v
+  | none => clearReg W s r.1
+
+def runRules (W : Walker) (s : Regs) (rules : List Rule) : Regs := rules.foldl (applyRule W) s
+
+/-- current code: the map's entries (argument: in ITERATION order) sorted by label, then applied -/
+def walkRest (W : Walker) (s : Regs) (iter : List Rule) : Regs := runRules W s (isort keyLe iter)
+
+/-- before c84fd4e: applied in iteration order -/
+def walkRestUnsorted (W : Walker) (s : Regs) (iter : List Rule) : Regs := runRules W s iter
+
+/-- decimal number of an all-digit byte string without leading zero (except "0") -/
+def decOf (bs : List Nat) : Option Nat :=
+  match bs with
+  | [] => none
+  | [48] => some 0
+  | 48 :: _ => none
+  | _ => bs.foldl (fun acc b => match acc with
+      | none => none
+      | some a => if 48 ≤ b ∧ b ≤ 57 then some (a * 10 + (b - 48)) else none) (some 0)
+
+/-- `CONTEXT_ARM64::memoize_register` (minidump/src/context.rs:496-502): `x0`…`x28`, `fp`, `lr`,
+    `sp`, `pc` and the aliases `x29` (= `fp`) and `x30` (= `lr`); ids 0…32 -/
+def canonArm64 (label : List Nat) : Option Nat :=
+  if label = [102, 112] then some 29        -- "fp"
+  else if label = [108, 114] then some 30   -- "lr"
+  else if label = [115, 112] then some 31   -- "sp"
+  else if label = [112, 99] then some 32    -- "pc"
+  else match label with
+    | 120 :: ds => match decOf ds with       -- 'x'
+      | some n => if n ≤ 30 then some n else none
+      | none => none
+    | _ => none
+
+def arm64 : Walker := ⟨canonArm64, fun v => v < 2 ^ 64⟩
+
+/-! ### 3. per-thread walks joined by index -/
+
+/-- `state.threads` after the walks finished in the order `order`: walk `i` writes slot `i` -/
+def joinByIndex {R : Type} (res : Nat → R) (init : List R) (order : List Nat) : List R :=
+  order.foldl (fun slots i => slots.set i (res i)) init
+
+/-- a collector that appends the results as the walks finish (NOT what the code does) -/
+def joinByCompletion {R : Type} (res : Nat → R) (order : List Nat) : List R := order.map res
+
+/-! ### 4. registers of a frame -/
+
+/-- `print_registers`: the fixed list filtered by membership in the validity set -/
+def textRegs (fixed valid : List (List Nat)) : List (List Nat) := fixed.filter (valid.contains ·)
+
+/-- `json_registers`: the same walk inserting into a `BTreeMap` ⇒ keys come out sorted; equal keys
+    collapse (`dedupSorted`) -/
+def dedupSorted : List (List Nat) → List (List Nat)
+  | [] => []
+  | [a] => [a]
+  | a :: b :: l => if a = b then dedupSorted (b :: l) else a :: dedupSorted (b :: l)
+
+def jsonRegs (fixed valid : List (List Nat)) : List (List Nat) :=
+  dedupSorted (isort lexLe (textRegs fixed valid))
+
+/-- a renderer that iterates the validity set (NOT what the code does) -/
+def regsBySet (fixed valid : List (List Nat)) : List (List Nat) := valid.filter (fixed.contains ·)
+
+/-! ### 5. symbol statistics, keyed by file leaf name -/
+
+/-- the three outcomes `get_symbols` distinguishes in the stats (ok / not found, load error,
+    missing id / parse error) -/
+inductive Res where
+  | ok | notFound | parseError
+  deriving DecidableEq, Repr, Inhabited
+
+/-- a module as the statistics see it: `leaf = leafname(code_file)`, `res` = what the supplier
+    answers for its module key -/
+structure Mod where
+  leaf : List Nat
+  res : Res
+  deriving DecidableEq, Repr, Inhabited
+
+/-- the `stats` map as an association list, newest insertion first (`HashMap::insert` replaces:
+    `lookup` returns the newest entry) -/
+abbrev StatsMap := List (List Nat × Res)
+
+/-- the map after the supplier calls completed in the order `done` (indices into `mods`) -/
+def statsAfter (mods : Nat → Mod) (done : List Nat) : StatsMap :=
+  done.foldl (fun m k => ((mods k).leaf, (mods k).res) :: m) []
+
+def lookup (m : StatsMap) (leaf : List Nat) : Option Res := (m.find? (·.1 == leaf)).map (·.2)
+
+/-- (`missing_symbols`, `loaded_symbols`, `corrupt_symbols`) of one module in the JSON report -/
+def flags : Option Res → Bool × Bool × Bool
+  | none => (false, false, false)
+  | some .ok => (false, true, false)
+  | some .notFound => (true, false, false)
+  | some .parseError => (false, true, true)
+
+/-- the per-module statistics the report shows, for the modules `shown` -/
+def statsReport (mods : Nat → Mod) (done : List Nat) (shown : List Nat) : List (Bool × Bool × Bool) :=
+  shown.map fun i => flags (lookup (statsAfter mods done) (mods i).leaf)
+
+/-! ### 6. module certificates from the evil JSON -/
+
+/-- `ModuleSignatureInfo` in ITERATION order: certificate name, modules signed with it -/
+abbrev CertInfo := List (List Nat × List (List Nat))
+
+/-- the `(module, cert)` insertions in the order the two nested loops perform them over `entries` -/
+def certPairs (entries : CertInfo) : List (List Nat × List Nat) :=
+  entries.flatMap fun e => e.2.map fun m => (m, e.1)
+
+/-- `cert_map` as an association list, newest insertion first, when the outer loop visits
+    `entries` in the given order (before fix 2943e9c: the map's iteration order) -/
+def certMapUnsorted (entries : CertInfo) : List (List Nat × List Nat) :=
+  (certPairs entries).foldl (fun m kv => kv :: m) []
+
+/-- current code (fix 2943e9c): `certs.into_iter().collect::<Vec<_>>()`, `certs.sort()` — the
+    certificate names are the keys of a map, hence pairwise distinct, so the order of the pairs
+    `(name, modules)` is the order of the names — then the nested insert loop -/
+def certMap (iter : CertInfo) : List (List Nat × List Nat) := certMapUnsorted (isort keyLe iter)
+
+def certLookup (m : List (List Nat × List Nat)) (name : List Nat) : Option (List Nat) :=
+  (m.find? (·.1 == name)).map (·.2)
+
+/-- `cert_subject` of the modules `shown` (by file name) -/
+def certReport (iter : CertInfo) (shown : List (List Nat)) : List (Option (List Nat)) :=
+  shown.map (certLookup (certMap iter))
+
+def certReportUnsorted (iter : CertInfo) (shown : List (List Nat)) : List (Option (List Nat)) :=
+  shown.map (certLookup (certMapUnsorted iter))
+
+/-! ### line protocol
+  `det model lim:<E,..|-> mods:<hexleaf=res,..|-> done:<i,i,..|-> thr:<i.i.i|->/<tid,tid,..|-> fixed:<hex,..|-> valid:<hex,..|-> jvalid:<hex,..|-> certs:<hexcert=hexmod+hexmod..,..|-> cshown:<hexname,..|->`
+      E = `<hexname>/<rest>`; lists in the order the real containers were iterated / the real
+      supplier calls completed; `valid` = validity set of a recovered frame (text report),
+      `jvalid` = the set `json_registers` tests for the crashing thread's context frame.
+      -> `lim:<E,..> stats:<mlc,..> thr:<tid,..> text:<hex,..> json:<hex,..> cert:<hexcert|0,..>`
+  `det cfi init:<r=v+|r=v-,..|-> rules:<hexlabel=v|hexlabel=-,..|->`   (rules in any order)
+      -> `regs:<r=v+|r=v-,..>` for the registers 0…32 that are valid or were touched
+-/
+open Proto
+
+def allSome {α : Type} : List (Option α) → Option (List α)
+  | [] => some []
+  | none :: _ => none
+  | some a :: rest => (allSome rest).map (a :: ·)
+
+def listOf (s : String) (sep : String) : List String := if s == "-" then [] else s.splitOn sep
+
+def unhexName (s : String) : Option (List Nat) := (unhex s).map (·.map UInt8.toNat)
+
+def hexName (n : List Nat) : String := hex (n.map UInt8.ofNat)
+
+def parseEntry (s : String) : Option (LimitEntry String) :=
+  match s.splitOn "/" with
+  | n :: rest@(_ :: _) => (unhexName n).map fun n => (n, "/".intercalate rest)
+  | _ => none
+
+def parseRes (s : String) : Option Res :=
+  match s with
+  | "ok" => some .ok | "nf" => some .notFound | "pe" => some .parseError | _ => none
+
+def parseMod (s : String) : Option Mod :=
+  match s.splitOn "=" with
+  | [l, r] => match unhexName l, parseRes r with
+    | some l, some r => some ⟨l, r⟩
+    | _, _ => none
+  | _ => none
+
+def bit (b : Bool) : String := if b then "1" else "0"
+
+def parseCert (s : String) : Option (List Nat × List (List Nat)) :=
+  match s.splitOn "=" with
+  | [c, ms] => match unhexName c, allSome ((listOf ms "+").map unhexName) with
+    | some c, some ms => some (c, ms)
+    | _, _ => none
+  | _ => none
+
+def handleModel (lim mods done thr fixed valid jvalid certs cshown : String) : String :=
+  match allSome ((listOf lim ",").map parseEntry),
+        allSome ((listOf mods ",").map parseMod),
+        allSome ((listOf done ",").map optNat),
+        thr.splitOn "/",
+        allSome ((listOf fixed ",").map unhexName),
+        allSome ((listOf valid ",").map unhexName),
+        allSome ((listOf jvalid ",").map unhexName),
+        allSome ((listOf certs ",").map parseCert),
+        allSome ((listOf cshown ",").map unhexName) with
+  | some lim, some mods, some done, [order, tids], some fixed, some valid, some jvalid, some certs, some cshown =>
+    match allSome ((listOf order ".").map optNat), allSome ((listOf tids ",").map optNat) with
+    | some order, some tids =>
+      if done.any (· ≥ mods.length) || order.any (· ≥ tids.length) then "bad-op" else
+      let modf : Nat → Mod := fun i => mods.getD i default
+      let stats := statsReport modf done (List.range mods.length)
+      -- every walk starts from a placeholder (the context frame only) and writes its own slot
+      let joined := joinByIndex (fun i => some (tids.getD i 0)) (tids.map fun _ => none) order
+      let thrOut := joined.map fun o => match o with | some t => toString t | none => "?"
+      s!"lim:{joinWith "," (renderLimits renderEntry lim)} stats:{joinWith "," (stats.map fun (m, l, c) => bit m ++ bit l ++ bit c)} thr:{joinWith "," thrOut} text:{joinWith "," ((textRegs fixed valid).map hexName)} json:{joinWith "," ((jsonRegs fixed jvalid).map hexName)} cert:{joinWith "," ((certReport certs cshown).map fun o => match o with | some c => hexName c | none => "0")}"
+    | _, _ => "bad-op"
+  | _, _, _, _, _, _, _, _, _ => "bad-op"
+
+def parseCell (s : String) : Option (Nat × Cell) :=
+  match s.splitOn "=" with
+  | [r, v] =>
+    let valid := v.endsWith "+"
+    if !(valid || v.endsWith "-") then none else
+    match optNat r, optNat (v.dropEnd 1).toString with
+    | some r, some v => some (r, ⟨v, valid⟩)
+    | _, _ => none
+  | _ => none
+
+def parseRule (s : String) : Option Rule :=
+  match s.splitOn "=" with
+  | [l, v] => match unhexName l with
+    | none => none
+    | some l => if v == "-" then some (l, none) else (optNat v).map fun v => (l, some v)
+  | _ => none
+
+def handleCfi (init rules : String) : String :=
+  match allSome ((listOf init ",").map parseCell), allSome ((listOf rules ",").map parseRule) with
+  | some init, some rules =>
+    let s0 : Regs := init.foldl (fun s (r, c) => upd s r c) (fun _ => ⟨0, false⟩)
+    let s := walkRest arm64 s0 rules
+    let touched := init.map (·.1) ++ rules.filterMap (fun r => canonArm64 r.1)
+    let shown := (List.range 33).filter fun r => (s r).valid || touched.contains r
+    "regs:" ++ joinWith "," (shown.map fun r => s!"{r}={(s r).val}{if (s r).valid then "+" else "-"}")
+  | _, _ => "bad-op"
+
+def field (pfx : String) (s : String) : Option String :=
+  if s.startsWith pfx then some (s.drop pfx.length).toString else none
 
 /-- line-protocol entry point of this model (engine(s): det) -/
-def handle (_engine : String) (_args : List String) : String := "bad-op"
+def handle (_engine : String) (args : List String) : String :=
+  match args with
+  | ["model", lim, mods, done, thr, fixed, valid, jvalid, certs, cshown] =>
+    match field "lim:" lim, field "mods:" mods, field "done:" done, field "thr:" thr,
+          field "fixed:" fixed, field "valid:" valid, field "jvalid:" jvalid,
+          field "certs:" certs, field "cshown:" cshown with
+    | some lim, some mods, some done, some thr, some fixed, some valid, some jvalid, some certs, some cshown =>
+      handleModel lim mods done thr fixed valid jvalid certs cshown
+    | _, _, _, _, _, _, _, _, _ => "bad-op"
+  | ["cfi", init, rules] =>
+    match field "init:" init, field "rules:" rules with
+    | some init, some rules => handleCfi init rules
+    | _, _ => "bad-op"
+  | _ => "bad-op"
 
 end MdModel.Det
